@@ -6,7 +6,9 @@ Space: per target (x86 16/32/64, ARM l/b, Thumb l/b, AArch64 l/b, MIPS32 l/b, PP
 /repo/test/arch/<arch>/arch.py (harvested with ast) and the opcode-map cubes of `mc/insngen.py` with the menu
 truncations of BOUNDS: fixed-width ISAs all 2^16 high half-words x a low half-word menu, Thumb all 2^16 first
 half-words x a second half-word menu, x86 prefix menu x {one-byte map, 0F map} x all 256 opcode bytes x ModRM menu x
-tail menu.  Every element miasm decodes (mn.dis(bytes, mode) returns) is taken once per distinct decoded byte string.
+tail menu; plus the x86 prefix-stack family "pfx" (stacks of 66h / 67h x REX byte x every opcode with an operand-size- or
+address-size-dependent immediate / relative / moffs operand x ModRM-SIB-disp forms, see PFX_*).
+Every element miasm decodes (mn.dis(bytes, mode) returns) is taken once per distinct decoded byte string.
 
 Oracle (the property statement).  For a decoded instruction of length L exactly the L bytes are handed to
 `llvm-mc --disassemble -show-encoding` as one *atomic block* `[0x.. 0x..]` (the reference decoder cannot read past the
@@ -43,7 +45,8 @@ LEVEL = "exploration"
 ENGINE = "enum"
 RULE = ("every element of the insngen lattices (curated vectors of test/arch; opcode-map cubes: all 2^16 opcode "
         "half-words x operand half-word menu for ARM/Thumb/AArch64/MIPS32/PPC, prefix menu x one-byte/0F map x all 256 "
-        "opcode bytes x ModRM menu x tail menu for x86) that miasm decodes, once per distinct decoded byte string "
+        "opcode bytes x ModRM menu x tail menu for x86, and stacks of 66h/67h x REX x every Iz/Iv/Jz/moffs opcode x ModRM "
+        "forms) that miasm decodes, once per distinct decoded byte string "
         "(instr.b) per target and shard; its L bytes go to llvm-mc as one atomic block; non-trivial = miasm decoded the "
         "element, so that one comparison with the reference decoder took place")
 LEVEL_TEXT = ("Bounded-exhaustive over explicitly described encoding lattices: the complete major-opcode axis of every "
@@ -54,7 +57,8 @@ LEVEL_NOTE = ("Trusted base: LLVM 14's decoder tables (llvm-mc --disassemble) wi
               "encoding LLVM accepts, or an extension LLVM lacks, shifts the verdict accordingly; llvm-mc prints a lone x86 "
               "prefix byte (lock, rep, data16 ...) as an instruction of its own, which is taken as LLVM's answer. "
               "Not covered: operand-field combinations outside the menus (low half-words, ModRM/SIB/tail bytes), x86 0F38/0F3A "
-              "and VEX/EVEX maps beyond what the menus reach, more than one prefix, what the instruction *means* (only "
+              "and VEX/EVEX maps beyond what the menus reach, stacks of several prefixes other than 66h/67h + REX on the "
+              "immediate-carrying opcodes (family pfx), what the instruction *means* (only "
               "validity and length are compared); MSP430 / MeP / SH4 are outside the property.")
 TECHNIQUE = "bounded-exhaustive enumeration of opcode-map cubes, differential length/validity comparison against llvm-mc"
 ASSUMPTIONS = ["an instruction is 'decoded by miasm' when mn.dis returns without raising; its length is instr.l",
@@ -106,6 +110,8 @@ BOUNDS = {
         "curated": TARGETS, "bitflip": [], "bytesub": [],
         "cube": g.cube_dims({"fixed32": {"lo": 1, "hi": 0, "stride": 8}, "thumb": {"ext": 1, "stride": 8},
                              "x86": {"prefix": 7, "maps": 2, "second": 2, "tail": 1}}, _NAT),
+        # prefix stacks {none, 66, 67, 66 67, 67 66} x REX {none, 40, 48, 4C, 4F} (64-bit mode) x Iz/Iv/Jz/moffs opcodes
+        "pfx": dict((t, {"rex": 5, "modrm": 6, "tail": 1}) for t in ("x86_16", "x86_32", "x86_64")),
         "shard": 2048, "bundles": 8,
     },
     # thorough: complete 16-bit opcode axis x 4 operand half-words (the other byte order: x 1), x86 with the complete
@@ -116,11 +122,67 @@ BOUNDS = {
             g.cube_dims({"fixed32": {"lo": 4, "hi": 0}, "thumb": {"ext": 4},
                          "x86": {"prefix": 7, "maps": 2, "second": 16, "tail": 4}}, _NAT),
             **g.cube_dims({"fixed32": {"lo": 1, "hi": 0}, "thumb": {"ext": 1}}, _SWP)),
+        # the same with every REX byte (none, 40..4F), the complete ModRM menu and 2 tails
+        "pfx": dict((t, {"rex": 17, "modrm": 10, "tail": 2}) for t in ("x86_16", "x86_32", "x86_64")),
         "shard": 8192, "bundles": 48,
     },
 }
 
 MAXLEN = 15
+
+
+# ---------------------------------------------------------------------------------------------------------------
+# x86 prefix-stack family ("pfx"): the cube of insngen puts ONE prefix byte in front of an opcode.  The width of an
+# immediate / relative / moffs operand depends on the *combination* of 66h, 67h and REX.W (64-bit mode: REX.W beats 66h),
+# so this family crosses stacks of legacy prefixes with a REX byte on every opcode that carries an operand-size- or
+# address-size-dependent immediate, with a few ModRM / SIB / displacement forms.
+PFX_LEGACY = [b"", b"\x66", b"\x67", b"\x66\x67", b"\x67\x66"]
+PFX_REX = [None, 0x40, 0x48, 0x4C, 0x4F,                      # quick: none, no bit, W, WR, WRXB
+           0x49, 0x4A, 0x4B, 0x4D, 0x4E, 0x41, 0x42, 0x44, 0x45, 0x47, 0x43, 0x46]
+# opcodes without ModRM: Iz accumulator forms, PUSH Iz, MOV r, Iv, CALL/JMP Jz, MOV moffs, Jcc Jz, ENTER, RET Iw
+PFX_PLAIN = ([bytes([o]) for o in (0x05, 0x0D, 0x15, 0x1D, 0x25, 0x2D, 0x35, 0x3D, 0xA9, 0x68)]
+             + [bytes([o]) for o in range(0xB8, 0xC0)]
+             + [bytes([o]) for o in (0xE8, 0xE9, 0xA0, 0xA1, 0xA2, 0xA3, 0xC8, 0xC2)]
+             + [bytes([0x0F, o]) for o in range(0x80, 0x90)])
+# opcodes with ModRM: IMUL Gv,Ev,Iz; group 1 Ev,Iz; MOV Ev,Iz; group 3 (TEST Ev,Iz); IMUL Ib and group 1 Ib as contrast
+PFX_MODRM = [b"\x69", b"\x81", b"\xC7", b"\xF7", b"\x6B", b"\x83"]
+# ModRM menu: [reg], register, disp32 / rip-relative (16-bit addressing: [di]), SIB, SIB+disp8, disp32, reg field 7
+PFX_MODRM_MENU = [0x00, 0xC0, 0x05, 0x04, 0x44, 0x80, 0x38, 0xF8, 0x06, 0x46]
+PFX_TAILS = [bytes([0x25, 0x11, 0x22, 0x33, 0x44, 0x55, 0x66, 0x77, 0x88, 0x99, 0xAA, 0xBB, 0xCC, 0xDD]),
+             bytes([0xE5, 0xFF, 0xFF, 0xFF, 0x7F, 0x00, 0x00, 0x00, 0x80, 0x01, 0x02, 0x03, 0x04, 0x05])]
+
+
+class PfxSource(object):
+    """insngen-compatible source (n, group, item): legacy stack x REX x (opcode [x ModRM]) x tail, leading bytes major."""
+
+    def __init__(self, name, dims):
+        t = g.Target(name)
+        self.name, self.kind = name, "pfx"
+        rex = PFX_REX[:dims["rex"]] if t.mode == 64 else [None]
+        bodies = list(PFX_PLAIN) + [op + bytes([m]) for op in PFX_MODRM for m in PFX_MODRM_MENU[:dims["modrm"]]]
+        tails = PFX_TAILS[:dims["tail"]]
+        self.items = [leg + (b"" if r is None else bytes([r])) + body + tail
+                      for leg in PFX_LEGACY for r in rex for body in bodies for tail in tails]
+        self.n, self.group = len(self.items), len(tails)
+        self.item = self.items.__getitem__
+
+
+def pfx_source(name, dims):
+    """Registers the family under insngen's source cache (kind "pfx"), so that g.shards / g.iter_shard_indexed serve it."""
+    key = ("src", name, "pfx", tuple(sorted(dims.items())))
+    if key not in g._cache:
+        g._cache[key] = PfxSource(name, dims)
+    return g._cache[key]
+
+
+def pfx_shards(tier, only=None):
+    out = []
+    for name, dims in sorted(BOUNDS[tier]["pfx"].items()):
+        if only and name not in only:
+            continue
+        pfx_source(name, dims)
+        out += g.shards(name, "pfx", dims, BOUNDS[tier]["shard"])
+    return out
 
 
 # ---------------------------------------------------------------------------------------------------------------
@@ -419,6 +481,8 @@ def _bundle(bundle):
     for shard in bundle:
         name = shard[0]
         deterministic(name)
+        if shard[1] == "pfx":
+            pfx_source(name, shard[2])
         stats = {}
         counters = collections.Counter()
         idx = len(out)
@@ -458,7 +522,7 @@ def _work(bundle):
 
 
 def plan(tier, only=None):
-    return g.make_plan(BOUNDS[tier], TARGETS, only)
+    return g.make_plan(BOUNDS[tier], TARGETS, only) + pfx_shards(tier, only)
 
 
 def run(ctx):
@@ -467,7 +531,10 @@ def run(ctx):
     shards = plan(tier)
     # no warm-up in the parent: every worker imports the architectures of its own bundles (a bundle holds one family)
     res = [r for rs in ctx.pmap(_work, g.bundles(shards, BOUNDS[tier]["bundles"])) for r in rs]
-    bounds = dict(BOUNDS[tier], sizes=g.plan_sizes(BOUNDS[tier], TARGETS),
+    sizes = g.plan_sizes(BOUNDS[tier], TARGETS)
+    for name, dims in BOUNDS[tier]["pfx"].items():
+        sizes[name]["pfx"] = pfx_source(name, dims).n
+    bounds = dict(BOUNDS[tier], sizes=sizes,
                   llvm=dict((t, " ".join(LLVM_TARGETS[t][0])) for t in TARGETS))
     cov = g.fold(ctx, res, bounds, nontrivial=lambda c: c.get("compared", 0))
     cov["reference"] = subprocess.run([llvm_mc(), "--version"], stdout=subprocess.PIPE).stdout.decode().split("\n")[1].strip()
